@@ -336,7 +336,7 @@ int main(int argc, char** argv)
                 char buf[200];
                 std::snprintf(buf, sizeof buf, "%d %d %d %d", rmin, rmax, cmin, cmax);
                 std::string s(buf);
-                std::snprintf(buf, sizeof buf, " ; inside=%ld chi2=%.3f", inside, chi);
+                std::snprintf(buf, sizeof buf, "\n%d unistat inside=%ld chi2=%.3f n=%d", k, inside, chi, n);
                 return s + buf;
             });
             std::printf("%d uni %s\n", k, r.c_str());
